@@ -21,6 +21,7 @@ type c15Op struct {
 	Key   int    `json:"k"`
 	Dirty bool   `json:"d,omitempty"` // set: the page is already dirty when it is inserted
 	Fresh bool   `json:"f,omitempty"` // set: a new page object even if the key is resident
+	N     int    `json:"n,omitempty"` // set: repeat for N consecutive keys (large capacities)
 }
 
 type c15Case struct {
@@ -109,7 +110,7 @@ func (r *c15Runner) clone() *c15Runner {
 	cp := map[*btreeNode]*btreeNode{}
 	for i := len(r.m.entries) - 1; i >= 0; i-- {
 		e := r.m.entries[i]
-		n := &btreeNode{dirty: e.node.dirty, fileOffset: e.node.fileOffset}
+		n := &btreeNode{dirty: e.node.dirty, fileOffset: e.node.fileOffset, isLeaf: e.node.isLeaf}
 		cp[e.node] = n
 		c.m.entries = append([]c15Entry{{e.key, n}}, c.m.entries...)
 	}
@@ -117,7 +118,7 @@ func (r *c15Runner) clone() *c15Runner {
 		ce := e.Value.(*cacheEntry)
 		n := cp[ce.val]
 		if n == nil {
-			n = &btreeNode{dirty: ce.val.dirty, fileOffset: ce.val.fileOffset}
+			n = &btreeNode{dirty: ce.val.dirty, fileOffset: ce.val.fileOffset, isLeaf: ce.val.isLeaf}
 		}
 		el := c.lru.list.PushFront(&cacheEntry{key: ce.key, val: n})
 		c.lru.cache[ce.key] = el
@@ -126,7 +127,7 @@ func (r *c15Runner) clone() *c15Runner {
 		if x := cp[n]; x != nil {
 			c.nodes[k] = x
 		} else {
-			c.nodes[k] = &btreeNode{dirty: n.dirty, fileOffset: n.fileOffset}
+			c.nodes[k] = &btreeNode{dirty: n.dirty, fileOffset: n.fileOffset, isLeaf: n.isLeaf}
 		}
 	}
 	c.evSkip, c.refused, c.evicts = r.evSkip, r.refused, r.evicts
@@ -139,7 +140,8 @@ func (r *c15Runner) step(op c15Op) string {
 	case "set":
 		n := r.nodes[op.Key]
 		if n == nil || op.Fresh || r.m.find(op.Key) < 0 {
-			n = &btreeNode{fileOffset: uint64(op.Key) * pageSize}
+			// a mix of leaf and internal pages, as in a real cache
+			n = &btreeNode{fileOffset: uint64(op.Key) * pageSize, isLeaf: op.Key%2 == 0}
 			if op.Dirty {
 				n.markDirty(1)
 			}
@@ -222,7 +224,17 @@ func (r *c15Runner) describe() string {
 
 func c15Run(c c15Case, st *vlib.Stats) string {
 	r := newC15Runner(c.Cap)
-	for i, op := range c.Ops {
+	var ops []c15Op
+	for _, op := range c.Ops {
+		if op.N <= 1 {
+			ops = append(ops, op)
+			continue
+		}
+		for k := 0; k < op.N; k++ {
+			ops = append(ops, c15Op{Op: op.Op, Key: op.Key + k, Dirty: op.Dirty, Fresh: op.Fresh})
+		}
+	}
+	for i, op := range ops {
 		var msg string
 		func() {
 			defer func() {
@@ -247,11 +259,38 @@ func c15Run(c c15Case, st *vlib.Stats) string {
 	if r.evicts > 0 {
 		labels = append(labels, "eviction")
 	}
+	if c.Cap > 1024 {
+		labels = append(labels, "capacity-over-1024")
+	}
 	st.Record(b, r.evSkip > 0 || r.refused > 0, labels...)
 	return ""
 }
 
+// c15GenLarge: capacities of the order the engine uses (10000), driven with
+// runs of insertions so that long stretches of the recency list are dirty.
+func c15GenLarge(t *rapid.T) c15Case {
+	c := c15Case{Cap: rapid.SampledFrom([]int{1025, 1100, 1300, 2000, 2500}).Draw(t, "cap_large")}
+	next := 0
+	for k := rapid.IntRange(2, 7).Draw(t, "nruns"); k > 0; k-- {
+		n := rapid.SampledFrom([]int{1, 10, 70, 300, 1024, 1030, c.Cap - 10, c.Cap}).Draw(t, "run")
+		c.Ops = append(c.Ops, c15Op{Op: "set", Key: next, N: n, Dirty: rapid.Bool().Draw(t, "rundirty")})
+		next += n
+		for j := rapid.IntRange(0, 12).Draw(t, "between"); j > 0; j-- {
+			op := c15Op{Op: rapid.SampledFrom([]string{"set", "get", "dirty", "clean", "set"}).Draw(t, "op"), Key: rapid.IntRange(0, next+3).Draw(t, "key")}
+			if op.Op == "set" {
+				op.Dirty = rapid.IntRange(0, 3).Draw(t, "setdirty") == 0
+				op.Fresh = rapid.IntRange(0, 3).Draw(t, "fresh") == 0
+			}
+			c.Ops = append(c.Ops, op)
+		}
+	}
+	return c
+}
+
 func c15Gen(t *rapid.T) c15Case {
+	if rapid.IntRange(0, 99).Draw(t, "large") == 41 {
+		return c15GenLarge(t)
+	}
 	c := c15Case{Cap: rapid.OneOf(rapid.IntRange(1, 6), rapid.IntRange(5, 64)).Draw(t, "cap")}
 	nkeys := c.Cap + rapid.IntRange(1, 4).Draw(t, "extra")
 	n := rapid.IntRange(20, 400).Draw(t, "nops")
